@@ -503,6 +503,35 @@ func runC18(r *Run) {
 		}
 	})
 
+	r.rule("R18", "cookie names are compared byte for byte: `sid` and `SID` are two cookies (RFC 6265 §5.3 compares names exactly); nowhere in the jar is the name of a stored cookie (fasthttp.Cookie.Key) compared under case folding — a folded comparison makes the second name overwrite the first in place, the jar then returns one cookie where the server set two (E5: no fold on a Key())", func() {
+		nExact, bad := 0, ""
+		r.P.AllFuncs("client", func(f *ssa.Function) {
+			for _, c := range callsIn(f, false) {
+				onKey := false
+				for _, a := range c.Common.Args {
+					if dependsOn(a, func(v ssa.Value) bool {
+						cc, ok := v.(*ssa.Call)
+						return ok && strings.HasSuffix(calleeName(&cc.Call), "fasthttp.Cookie).Key")
+					}) != nil {
+						onKey = true
+					}
+				}
+				if !onKey {
+					continue
+				}
+				switch {
+				case strings.Contains(c.Name, "EqualFold"), strings.Contains(c.Name, "ToLower"), strings.Contains(c.Name, "ToUpper"):
+					bad = c.Name + " in " + short(f.String()) + " at " + r.pos(c.Instr)
+				case c.Name == "bytes.Equal":
+					nExact++
+				}
+			}
+		})
+		r.count("exact comparisons of a stored cookie name", nExact)
+		r.check(bad == "", "jar:cookie-names-compared-exactly", "", fmt.Sprintf("%d exact comparisons of Cookie.Key(), no folded one", nExact),
+			"a stored cookie's name is compared under case folding ("+bad+"): storing `SID` finds `sid` and overwrites it, key included — `sid=1` vanishes from the jar and the client sends one cookie where the server set two")
+	})
+
 	r.rule("R17", "a configured file name arrives: while a request is prepared, a File's name is written only where it was empty — parserRequestBodyFile (and whatever it calls) assigns File.name only behind the test name == \"\"; a name derived from the path replaces none that SetFileName / AddFileWithReader configured (E1 guard on the overwritten value)", func() {
 		f := r.Fn("client", "parserRequestBodyFile")
 		n := 0
